@@ -59,7 +59,7 @@ func genPDFContent(t *rapid.T) []byte {
 		}
 	}
 	for s := 0; s < nseg; s++ {
-		switch rapid.IntRange(0, 15).Draw(t, "seg") {
+		switch rapid.IntRange(0, 16).Draw(t, "seg") {
 		case 0:
 			out = append(out, drawFrom(t, pdfUpper, rapid.IntRange(1, 12).Draw(t, "n"), "u")...)
 		case 1:
@@ -114,6 +114,8 @@ func genPDFContent(t *rapid.T) []byte {
 			n := rapid.IntRange(100, 900).Draw(t, "bulk")
 			kind := rapid.IntRange(0, 3).Draw(t, "bk")
 			out = append(out, fillPDF(kind, int64(rapid.IntRange(0, 1<<20).Draw(t, "seed")), n)...)
+		case 15:
+			out = append(out, latin1Text(t, 12)...)
 		default:
 			out = append(out, drawFrom(t, pdfUpper+pdfLower+pdfMixedS+pdfPunctS, rapid.IntRange(1, 20).Draw(t, "n"), "txt")...)
 		}
@@ -246,7 +248,7 @@ func TestC04Sweep(t *testing.T) {
 		step = 1
 	}
 	for kind := 0; kind < 4; kind++ {
-		maxN := []int{2700, 1800, 1100, 1500}[kind]
+		maxN := []int{3100, 2100, 1300, 1700}[kind] // up to and clearly beyond the 900/928-codeword limits
 		for n := 0; n <= maxN; n += step {
 			jobs = append(jobs, job{kind, n, (n / step) % 9})
 			if n < 120 {
